@@ -248,4 +248,12 @@ Decode(b, eenv, ets) ==
   ELSE LET e == m.env @@ eenv
            S == IF HasRef(m.env) /\ HasRef(eenv) THEN SubFrom(e, RefNodes(m.env) \X RefNodes(eenv)) ELSE {}
        IN CoArgs(e, S, m.vals, m.types, ets, 1, <<>>)
+\* the same without the replacement of uninhabited wire records by empty (used to attribute a
+\* disagreement to that documented replacement)
+DecodeNR(b, eenv, ets) ==
+  LET m == ParseNoReplace(b) IN
+  IF ~m.ok THEN m
+  ELSE LET e == m.env @@ eenv
+           S == IF HasRef(m.env) /\ HasRef(eenv) THEN SubFrom(e, RefNodes(m.env) \X RefNodes(eenv)) ELSE {}
+       IN CoArgs(e, S, m.vals, m.types, ets, 1, <<>>)
 ====
